@@ -147,7 +147,7 @@ def run(tier: str) -> int:
     for st in read_dump(g4.dump):
         h = [list(x) for x in st["hist"]]
         if len(h) == 4 and useful(h) and any(op[0] == "Damage" for op in h):
-            for flavour in range(5):
+            for flavour in range(7):
                 hists.append([tuple(op) + ((flavour,) if op[0] == "Damage" else ()) for op in h])
     # near twins: c4 is c1 behind a byte order mark (Write c1, Scan, Write c4, Scan and the other way round)
     n4 = len(hists)
